@@ -68,10 +68,12 @@ mutual
   partial def pTy : List Char → Option (KTy × List Char)
     | 's' :: r => some (.str, r)
     | 'w' :: r => some (.wstr, r)
-    -- final union: UF<disc>{<id>[d][<labels>]:<ty>,...}  (UA / UM are answered `unmodelled` before parsing)
-    | 'U' :: 'F' :: r => match pPrim r with
-      | some (d, '{' :: '}' :: r1) => some (.union d .nil, r1)
-      | some (d, '{' :: r1) => (pBs r1).map fun (bs, r2) => (.union d bs, r2)
+    -- final / appendable union: U<F|A><disc>{<id>[d][<labels>]:<ty>,...}  (UM is answered `unmodelled` before parsing)
+    | 'U' :: x :: r =>
+      if !(x == 'F' || x == 'A') then none else
+      match pPrim r with
+      | some (d, '{' :: '}' :: r1) => some (.union (x == 'A') d .nil, r1)
+      | some (d, '{' :: r1) => (pBs r1).map fun (bs, r2) => (.union (x == 'A') d bs, r2)
       | _ => none
     | 'Q' :: r =>
       let r1 := (takeDigits r).2
@@ -197,9 +199,9 @@ def msTys : Ms → List Ty
 
 /-- type-directed printing (union values are `<disc,id:value>`) -/
 partial def showTV : Ty → Val → String
-  | .union _ bs, .struct [.num d, .num id, v] =>
+  | .union _ _ bs, .struct [.num d, .num id, v] =>
     "<" ++ toString d ++ "," ++ toString id ++ ":" ++ (match bsTyOf id bs with | some t => showTV t v | none => showVal v) ++ ">"
-  | .union _ _, .struct [.num d] => "<" ++ toString d ++ ">"
+  | .union _ _ _, .struct [.num d] => "<" ++ toString d ++ ">"
   | .struct _ ms, .struct fs =>
     "{" ++ String.intercalate "," (((msTys ms).zip fs).map fun (t, f) => showTV t f) ++ "}"
   | .seq el, .list vs => "[" ++ String.intercalate "," (vs.map (showTV el)) ++ "]"
@@ -234,7 +236,7 @@ mutual
     | .seq el => tyOk el
     | .arr el _ => tyOk el
     | .struct _ ms => msOk ms
-    | .union _ bs => bsOk bs
+    | .union _ _ bs => bsOk bs
     | _ => true
   def bsOk : Bs → Bool
     | .nil => true
@@ -270,7 +272,7 @@ def flatIds (kt : KTy) : List Nat := (flatTy kt).map fun k => k.id
 def step (cfg : Cfg) (line : String) : String :=
   -- unions are not modelled: the harness answer of such a line is checked by the oracle only
   -- appendable / mutable unions are not modelled: the harness answer of such a line is checked by the oracle only
-  if (line.splitOn "UA").length > 1 || (line.splitOn "UM").length > 1 then "unmodelled" else
+  if (line.splitOn "UM").length > 1 then "unmodelled" else
   match toks line with
   | ["ser", ver, en, ty, val] => match pVer ver, pEnd en, parseTy ty, parseVal val with
     | some ver, some e, some t, some v => match serLine cfg ver e t v with
